@@ -182,6 +182,17 @@ class Tree:
         walk(self.children, ())
         return out
 
+    def has_opaque_groups(self):
+        def walk(children):
+            for c in children:
+                if isinstance(c, GNode):
+                    if isinstance(c.name, str) and c.name.startswith("str:"):
+                        return True
+                    if walk(c.children):
+                        return True
+            return False
+        return walk(self.children)
+
     def shape(self):
         gs = [c for c in self.children if isinstance(c, GNode)]
         if not self.children:
@@ -330,7 +341,10 @@ def match(result, tree, reader, check_attrs=True, attr_filter=None):
     # svg2paths* and SaxDocument return DOCUMENT order (a depth-first walk of the file), which is
     # unambiguous whatever the grouping; Document.paths() walks groups its own way, so for it only the
     # order within one parent element is required (DESIGN 4.5)
-    total_order = reader.startswith(("svg2paths", "svgstr2paths", "sax"))
+    total_order = reader.startswith(("svg2paths", "svgstr2paths", "sax")) and not tree.has_opaque_groups()
+    # (a group given as ONE plain string is kept opaque in the model - today the library nests one group
+    #  per character, so two such names that share a prefix share outer groups and the model cannot
+    #  know the document order across them)
 
     def search(ordered):
         used = [False] * n
